@@ -185,7 +185,10 @@ T_HTMLDIR = tree_token(std_entries([("d", "outer/root/d2/index.html"), ("d", "ou
                                     ("f", "outer/root/%2e%2e/secret", content_of("%2e%2e/secret")),
                                     ("f", "outer/root/dir/x.html", content_of("dir/x.html")),
                                     ("f", "outer/root/...", content_of("...")),
-                                    ("f", "outer/root/dir.html", content_of("dir.html"))]))
+                                    ("f", "outer/root/dir.html", content_of("dir.html")),
+                                    # a page whose stem has a dot of its own: /v1.2 stands for v1.2.html
+                                    ("f", "outer/root/v1.2.html", content_of("v1.2.html")),
+                                    ("f", "outer/root/dir/api.v2.html", content_of("dir/api.v2.html"))]))
 # the configured directory does not exist, a sibling "<directory>.html" does
 T_NOROOT = tree_token([("f", "outer/secret", b"SECRET"), ("f", "outer/root.html", b"OUTSIDE root.html"),
                        ("f", "outer/__init__.py", b""), ("f", "outer/rootX/index.html", b"SIBLING index")])
@@ -746,7 +749,7 @@ def cases(rng, tier):
                 yield mk(a, i, how, path, T_STD, d)
     # 4. the other worlds
     for token in (T_HTMLDIR, T_NOROOT):
-        alpha = ALPHABET + ["x", "d2", "sub", "sub.html", "root.html", "rootX", "...", "dir.html"]
+        alpha = ALPHABET + ["x", "d2", "sub", "sub.html", "root.html", "rootX", "...", "dir.html", "v1.2", "api.v2"]
         for how in ("abs", "rel", "pkg"):
             for path in paths_upto(alpha, 2 if how != "abs" else (3 if thorough else 2)):
                 for a, i in VARIANTS:
